@@ -200,6 +200,24 @@ def _observe_result(S: M.Session, m, m2, r, r2, components=True):
         S.observe(r2, r, "rebuilt~result")
         S.observe(r2, m, "rebuilt~base")
         S.observe(m, r2, "base~rebuilt")
+        # the same pair without the compartmental system (whose hash is a known finding): Model.__hash__ /
+        # Statements.__hash__ themselves are then judged
+        try:
+            if r.statements.ode_system is not None and r2.statements.ode_system is not None:
+                t1 = r.replace(statements=r.statements.before_odes)
+                t2 = r2.replace(statements=r2.statements.before_odes)
+                S.load(t1, "replace(statements=before_odes)")
+                S.load(t2, "replace(statements=before_odes)")
+                S.observe(t1, t2, "result~rebuilt without ODE system")
+                S.observe(t2, t1, "rebuilt~result without ODE system")
+                if components:
+                    for x, y in ((t1.statements, t2.statements), (r.statements.after_odes, r2.statements.after_odes)):
+                        S.load(x, "statements part")
+                        S.load(y, "statements part")
+                        S.observe(x, y, "statements without ODE system")
+                        S.observe(y, x, "statements without ODE system")
+        except Exception:
+            pass
         if components:
             for name in ("parameters", "random_variables", "statements", "datainfo", "execution_steps"):
                 x, y = getattr(r, name), getattr(r2, name)
@@ -453,6 +471,9 @@ def _report(v: core.Verdict, s, l, why):
     if why["k"] == "frame":
         parts = sorted({p for o in why["objs"] for p in inf.get("changed", {}).get(o, inf.get("changed", {}).get(str(o), []))})
         case["changed_parts"] = parts
+        cd = inf.get("coldiff", {})
+        for key in ("added", "removed", "modified"):
+            case[key + "_columns"] = sorted({c for o in why["objs"] for c in cd.get(o, cd.get(str(o), {})).get(key, [])})
         case["call_outcome"] = ev.get("out")
         what = f"{case['function']}({meta.get('base')}) changed {'/'.join(parts) or '?'} of an object that existed before the call (call {ev.get('out', ev['ev'])})"
     elif why["k"] == "wf":
